@@ -29,6 +29,7 @@ import (
 	"strings"
 	"testing"
 	"time"
+	_ "time/tzdata" // tz('...') clauses of generated statements must parse wherever the check runs
 
 	"verifharness/kit"
 
